@@ -71,6 +71,8 @@ struct CaseStats {
     twin_rejected: bool,
     mo_skipped: bool,
     dup_defs: Vec<(Target, String)>,
+    str_tokens: u64,
+    comment_tokens: u64,
 }
 
 fn excerpt(s: &str, needle_line: Option<usize>) -> String {
@@ -99,18 +101,34 @@ fn panic_site(msg: &str) -> String {
 
 /// Evaluate one case completely; pure (same input => same result) unless the subject is
 /// nondeterministic.
-fn eval_case(c: &Case, fresh: Option<&Vec<Result<String, String>>>) -> (Vec<Viol>, CaseStats) {
+fn eval_case(c: &Case, fresh: Option<&Vec<Result<String, String>>>, light: bool) -> (Vec<Viol>, CaseStats) {
     let mut st = CaseStats::default();
     let mut out: Vec<Viol> = vec![];
     let hostile = c.hostile.clone().unwrap_or_default();
-    let pos = c.pos.clone().unwrap_or_else(|| "program".into());
+    let shape = match (c.view.has_actor, c.view.has_init, c.view.actor_ref.is_some()) {
+        (false, _, _) => "no-actor",
+        (true, false, false) => "actor-inline",
+        (true, false, true) => "actor-ref",
+        (true, true, false) => "class-inline",
+        (true, true, true) => "class-ref",
+    };
+    // placements: generator + clause + what the oracle points at + hostile string + position
+    // class.  U_P programs: generator + clause + offending name + the non-identifier names of
+    // the program (or its definition names if there are none) + actor shape.
+    let pos = match &c.pos {
+        Some(p) => p.clone(),
+        None if c.hostile.is_some() => format!("U_P:{shape}"),
+        None => format!("U_P:{shape}:defs={}", c.view.all_defs.join(",")),
+    };
     let mk = |target: Target, clause: &str, subject: &str, msg: String| -> Viol {
-        // placements: generator + clause + hostile string + position class (+ what the
-        // oracle points at); U_P programs: generator + clause + offending name + program
-        let key = if c.hostile.is_some() {
-            format!("{}|{}|{}|hostile={:?}|{}", target.name(), clause, subject, hostile, pos)
+        // U_P programs: a closure finding is identified by the offending name, not by the
+        // unrelated hostile names the program happens to contain
+        let by_subject = c.pos.is_none() && matches!(clause, "undefined-name" | "method-count");
+        let key = if by_subject {
+            format!("{}|{}|{}|U_P:{shape}", target.name(), clause, subject)
         } else {
-            format!("{}|{}|{}|prog={}", target.name(), clause, subject, c.did.replace('\n', ""))
+            // (the engine squeezes whitespace out of keys: spell blanks out)
+            format!("{}|{}|{}|hostile={}|{}", target.name(), clause, subject, format!("{hostile:?}").replace(' ', "\\x20"), pos)
         };
         Viol { key, msg, target, clause: clause.to_string(), subject: subject.to_string() }
     };
@@ -140,8 +158,9 @@ fn eval_case(c: &Case, fresh: Option<&Vec<Result<String, String>>>) -> (Vec<Viol
     for (ti, &t) in targets.iter().enumerate() {
         st.pairs += 1;
         let r1 = gens::generate(&checked, t);
-        let r2 = gens::generate(&checked, t);
-        st.gen_calls += 2;
+        // light levels (the large pair products) skip the determinism re-runs
+        let r2 = if light { r1.clone() } else { gens::generate(&checked, t) };
+        st.gen_calls += if light { 1 } else { 2 };
         let o1 = match (&r1, &r2) {
             (Err(p), _) | (_, Err(p)) => {
                 st.outcomes.push(format!("{}:panic", t.name()));
@@ -174,35 +193,62 @@ fn eval_case(c: &Case, fresh: Option<&Vec<Result<String, String>>>) -> (Vec<Viol
         }
         let lexed = lex::lex(o1, t.lang());
         st.validated += 1;
-        let findings = oracle::closure(t, &lexed, &c.view);
+        st.str_tokens += lexed.toks.iter().filter(|k| k.kind == lex::Kind::Str).count() as u64;
+        st.comment_tokens += lexed.toks.iter().filter(|k| k.kind == lex::Kind::Comment).count() as u64;
         for d in oracle::duplicate_definitions(t, &lexed) {
             st.dup_defs.push((t, d));
         }
-        let mut class = "ok".to_string();
-        for f in &findings {
-            class = f.clause.to_string();
-            let clause = if f.clause == "unbalanced" { "token-injection/unbalanced" } else { f.clause };
-            out.push(mk(t, clause, &f.subject, format!("{}: {}\n--- output\n{}", t.name(), f.detail, excerpt(o1, None))));
+        // lexical integrity first: unterminated literal / comment, differential tokenisation,
+        // bracket balance. If the token stream is broken, closure findings on it are only
+        // symptoms and are not reported separately.
+        let mut integrity: Vec<Viol> = vec![];
+        for f in oracle::unterminated(&lexed) {
+            integrity.push(mk(t, "unterminated", &f.subject, format!("{}: {}\n--- output\n{}", t.name(), f.detail, excerpt(o1, None))));
         }
         if let Some(tc) = &twin_checked {
             st.gen_calls += 1;
             match gens::generate(tc, t) {
                 Err(p) => {
-                    // the benign twin must not panic either (it is a checked program)
+                    // the benign twin is a checked program too
                     out.push(mk(t, "panic", &panic_site(&p), format!("{} generator unwound on the benign twin: {p}", t.name())));
                 }
                 Ok(b) => {
                     let lb = lex::lex(&b, t.lang());
-                    if !lb.errors.is_empty() {
-                        // a placeholder never breaks a literal: if it does the oracle is wrong
-                        out.push(mk(t, "unterminated", "benign-twin", format!("{}: benign twin output does not lex: {:?}\n{}", t.name(), lb.errors, excerpt(&b, None))));
-                    }
-                    if let Some(d) = oracle::differential(&lexed, &lb) {
-                        class = "token-injection".into();
+                    if !lb.errors.is_empty() || oracle::balance(&oracle::code_tokens(&lb)).is_some() {
+                        // a placeholder cannot break a literal: the twin is not a usable baseline
+                        st.outcomes.push(format!("{}:twin-does-not-lex", t.name()));
+                    } else if let Some(d) = oracle::differential(&lexed, &lb, c.twin_unordered) {
                         let line = first_diff_line(o1, &b);
-                        out.push(mk(t, "token-injection", "kind-sequence", format!("{}: {d}\n--- output with hostile text (excerpt)\n{}\n--- output with placeholder (excerpt)\n{}", t.name(), excerpt(o1, line), excerpt(&b, line))));
+                        let subject = if c.twin_unordered { "kind-multiset" } else { "kind-sequence" };
+                        // Not an injection: the hostile output is lexically intact but has
+                        // *fewer* definitions than the twin (a generated definition was lost,
+                        // e.g. overwritten by a definition of the same name).
+                        let (dh, db) = (oracle::definition_count(t, &lexed), oracle::definition_count(t, &lb));
+                        let intact = lexed.errors.is_empty() && oracle::balance(&oracle::code_tokens(&lexed)).is_none();
+                        if intact && dh < db {
+                            integrity.push(mk(t, "definition-lost", "fewer-definitions-than-twin", format!("{}: the output has {dh} type definitions where the output for the same program with a placeholder name has {db}; {d}\n--- output with hostile text (excerpt)\n{}\n--- output with placeholder (excerpt)\n{}", t.name(), excerpt(o1, line), excerpt(&b, line))));
+                        } else {
+                        integrity.push(mk(t, "token-injection", subject, format!("{}: {d}\n--- output with hostile text (excerpt)\n{}\n--- output with placeholder (excerpt)\n{}", t.name(), excerpt(o1, line), excerpt(&b, line))));
+                        }
                     }
                 }
+            }
+        }
+        if let Some(f) = oracle::balance(&oracle::code_tokens(&lexed)) {
+            if integrity.is_empty() {
+                integrity.push(mk(t, "token-injection/unbalanced", &f.subject, format!("{}: {}\n--- output\n{}", t.name(), f.detail, excerpt(o1, None))));
+            }
+        }
+        let class;
+        if !integrity.is_empty() {
+            // one root cause, one violation: unterminated > differential > unbalanced
+            class = integrity[0].clause.clone();
+            out.push(integrity.swap_remove(0));
+        } else {
+            let findings = oracle::closure(t, &lexed, &c.view);
+            class = findings.first().map(|f| f.clause.to_string()).unwrap_or_else(|| "ok".into());
+            for f in &findings {
+                out.push(mk(t, f.clause, &f.subject, format!("{}: {}\n--- output\n{}", t.name(), f.detail, excerpt(o1, None))));
             }
         }
         st.outcomes.push(format!("{}:{}", t.name(), class));
@@ -236,7 +282,7 @@ fn view_from(j: &Value) -> View {
 }
 fn case_json(c: &Case, v: &Viol) -> Value {
     json!({
-        "did": c.did, "twin": c.twin, "family": c.family, "hostile": c.hostile, "position": c.pos, "view": view_json(&c.view),
+        "did": c.did, "twin": c.twin, "twin_unordered": c.twin_unordered, "family": c.family, "hostile": c.hostile, "position": c.pos, "view": view_json(&c.view),
         "target": v.target.name(), "clause": v.clause, "subject": v.subject,
         "how": "c19 --replay <this file>: parses+checks `did`, runs the generator `target`, applies the C19 oracles",
     })
@@ -246,9 +292,11 @@ fn case_from(j: &Value) -> Case {
         family: j["family"].as_str().unwrap_or("").to_string(),
         did: j["did"].as_str().unwrap_or("").to_string(),
         twin: j["twin"].as_str().map(|s| s.to_string()),
+        twin_unordered: j["twin_unordered"].as_bool().unwrap_or(false),
         view: view_from(&j["view"]),
         hostile: j["hostile"].as_str().map(|s| s.to_string()),
         pos: j["position"].as_str().map(|s| s.to_string()),
+        parts: vec![],
     }
 }
 
@@ -259,6 +307,16 @@ struct Kept {
     size: (usize, String),
     msg: String,
     case: Value,
+    target: Target,
+    integrity: bool,
+    clause: String,
+    hostile: Option<String>,
+    pos: Option<String>,
+}
+static SUBSUMED: AtomicU64 = AtomicU64::new(0);
+
+fn is_integrity(clause: &str) -> bool {
+    clause == "unterminated" || clause.starts_with("token-injection")
 }
 static SINK: Mutex<BTreeMap<String, Kept>> = Mutex::new(BTreeMap::new());
 static VIOL_TOTAL: AtomicU64 = AtomicU64::new(0);
@@ -269,10 +327,25 @@ fn record(c: &Case, v: &Viol) {
     let key = mclib::engine::mk_key(&v.key);
     let size = (c.did.len(), c.did.clone());
     let mut s = SINK.lock().unwrap();
+    // a product of hostile strings is subsumed by a recorded violation of one of its parts
+    // (same generator, same position class, same clause family)
+    if !c.parts.is_empty() {
+        let integ = is_integrity(&v.clause);
+        let hit = s.values().any(|k| {
+            k.target == v.target && k.pos == c.pos && k.hostile.as_ref().is_some_and(|h| c.parts.contains(h)) && (if integ { k.integrity } else { k.clause == v.clause })
+        });
+        if hit {
+            SUBSUMED.fetch_add(1, Ordering::Relaxed);
+            return;
+        }
+    }
     match s.get(&key) {
         Some(k) if k.size <= size => {}
         _ => {
-            s.insert(key, Kept { size, msg: v.msg.clone(), case: case_json(c, v) });
+            s.insert(
+                key,
+                Kept { size, msg: v.msg.clone(), case: case_json(c, v), target: v.target, integrity: is_integrity(&v.clause), clause: v.clause.clone(), hostile: c.hostile.clone(), pos: c.pos.clone() },
+            );
         }
     }
 }
@@ -298,8 +371,8 @@ fn second_thread(chunk: &[Case]) -> Vec<Vec<Result<String, String>>> {
     })
 }
 
-fn run_case(c: &Case, fresh: &Vec<Result<String, String>>, rep: &mut Report) {
-    let (v1, st) = eval_case(c, Some(fresh));
+fn run_case(c: &Case, fresh: Option<&Vec<Result<String, String>>>, rep: &mut Report) {
+    let (v1, st) = eval_case(c, fresh, fresh.is_none());
     rep.evaluations += st.pairs;
     rep.transitions += st.gen_calls;
     rep.traces_validated += st.validated;
@@ -311,6 +384,8 @@ fn run_case(c: &Case, fresh: &Vec<Result<String, String>>, rep: &mut Report) {
         rep.outcome(o);
     }
     rep.count("programs", 1);
+    rep.count("string_tokens_lexed", st.str_tokens);
+    rep.count("comment_tokens_lexed", st.comment_tokens);
     if st.front_end_rejected {
         rep.count("front_end_rejected", 1);
     }
@@ -334,7 +409,7 @@ fn run_case(c: &Case, fresh: &Vec<Result<String, String>>, rep: &mut Report) {
     }
     if !v1.is_empty() {
         // re-check once: the same input must give the same observation
-        let (v2, _) = eval_case(c, None);
+        let (v2, _) = eval_case(c, None, true);
         let k2: Vec<&String> = v2.iter().map(|v| &v.key).collect();
         for v in &v1 {
             if v.clause == "nondeterministic" || k2.contains(&&v.key) {
@@ -361,18 +436,18 @@ fn oracle_selftest() -> Result<(), String> {
     // 1. un-escaping the TS doc comment must be caught by the differential
     let ts_h = "/**\n * a */ export const x = 1; /* b\n */\nexport type T = bigint;\n";
     let ts_b = "/**\n * zzzzzzzzzzzzzzzzzzzzzzzzzzzzzz\n */\nexport type T = bigint;\n";
-    if oracle::differential(&lex::lex(ts_h, Lang::Js), &lex::lex(ts_b, Lang::Js)).is_none() {
+    if oracle::differential(&lex::lex(ts_h, Lang::Js), &lex::lex(ts_b, Lang::Js), false).is_none() {
         return Err("differential does not catch an unescaped */ in a TS doc comment".into());
     }
     let ts_ok = "/**\n * a *\\/ export const x = 1; /* b\n */\nexport type T = bigint;\n";
-    if let Some(d) = oracle::differential(&lex::lex(ts_ok, Lang::Js), &lex::lex(ts_b, Lang::Js)) {
+    if let Some(d) = oracle::differential(&lex::lex(ts_ok, Lang::Js), &lex::lex(ts_b, Lang::Js), false) {
         return Err(format!("differential flags a correctly escaped doc comment: {d}"));
     }
     // 2. an unescaped quote in a JS key
     let l = lex::lex("const a = IDL.Record({ 'a'b' : IDL.Nat });", Lang::Js);
     if l.errors.is_empty() && oracle::balance(&oracle::code_tokens(&l)).is_none() {
         let b = lex::lex("const a = IDL.Record({ 'zzz' : IDL.Nat });", Lang::Js);
-        if oracle::differential(&l, &b).is_none() {
+        if oracle::differential(&l, &b, false).is_none() {
             return Err("an unescaped quote in a JS key is not caught".into());
         }
     }
@@ -398,7 +473,7 @@ fn oracle_selftest() -> Result<(), String> {
     let rs_h = "pub static S: [u8; 3] = *br#\"service : { \"#\" : () -> () }\"#;";
     let rs_b = "pub static S: [u8; 3] = *br#\"service : { \"z\" : () -> () }\"#;";
     let (lh, lb) = (lex::lex(rs_h, Lang::Rs), lex::lex(rs_b, Lang::Rs));
-    if oracle::differential(&lh, &lb).is_none() {
+    if oracle::differential(&lh, &lb, false).is_none() || oracle::differential(&lh, &lb, true).is_none() {
         return Err("early termination of a raw string is not caught".into());
     }
     Ok(())
@@ -406,76 +481,90 @@ fn oracle_selftest() -> Result<(), String> {
 
 // ---------------------------------------------------------------------------------------
 
-fn build_cases(tier: Tier) -> Vec<(String, Vec<Case>)> {
+fn build_cases(tier: Tier) -> Vec<(String, bool, Vec<Case>)> {
     use mclib::progs;
-    let mut levels: Vec<(String, Vec<Case>)> = vec![];
+    // (name, light = no determinism re-runs, cases)
+    let mut levels: Vec<(String, bool, Vec<Case>)> = vec![];
     // U_P
     let cap = tier.pick(4000, 1_000_000);
     let up: Vec<Case> = progs::default_programs(cap).iter().map(|p| cases::upstream_case("U_P/default", p)).collect();
-    levels.push(("U_P default_programs".into(), up));
+    levels.push(("U_P default_programs".into(), false, up));
     let upp: Vec<Case> = progs::plain_programs(cap).iter().map(|p| cases::upstream_case("U_P/plain", p)).collect();
-    levels.push(("U_P plain_programs".into(), upp));
+    levels.push(("U_P plain_programs".into(), false, upp));
     // doc placements
     let docs = cases::hostile_docs();
     let bases = cases::doc_bases();
     let mut dc = vec![];
     for (bn, b) in &bases {
         for h in &docs {
-            cases::doc_cases(bn, b, std::slice::from_ref(h), &mut dc);
+            cases::doc_cases(bn, b, std::slice::from_ref(h), &[], &mut dc);
         }
     }
-    levels.push(("doc placement: bases x positions x hostile docs".into(), dc));
-    // two-line docs and concatenations: every ordered pair of a core alphabet
-    let core: Vec<String> = match tier {
-        Tier::Quick => docs.iter().take(8).cloned().collect(),
-        Tier::Thorough => docs.clone(),
-    };
+    levels.push(("doc placement: bases x positions x hostile docs".into(), false, dc));
+    // two-line docs and concatenations: every ordered pair of hostile docs
     let mut dc2 = vec![];
-    for (bn, b) in bases.iter().take(tier.pick(2, bases.len())) {
-        for h1 in &core {
-            for h2 in &core {
-                cases::doc_cases(bn, b, &[h1.clone(), h2.clone()], &mut dc2);
+    for (bi, (bn, b)) in bases.iter().enumerate() {
+        // quick: D1, D3 with the first 8 docs; thorough: D1 with the whole alphabet, the other
+        // bases with the first 12
+        let core: &[String] = match tier {
+            Tier::Quick if bi == 0 || bi == 2 => &docs[..8],
+            Tier::Quick => &[],
+            Tier::Thorough if bi == 0 => &docs[..],
+            Tier::Thorough => &docs[..12],
+        };
+        for h1 in core {
+            for h2 in core {
+                let parts = [h1.clone(), h2.clone()];
+                cases::doc_cases(bn, b, &parts, &parts, &mut dc2);
                 if tier == Tier::Thorough {
-                    cases::doc_cases(bn, b, &[format!("{h1}{h2}")], &mut dc2);
+                    cases::doc_cases(bn, b, &[format!("{h1}{h2}")], &parts, &mut dc2);
                 }
             }
         }
     }
-    levels.push(("doc placement: two-line docs and concatenations (ordered pairs)".into(), dc2));
+    levels.push(("doc placement: two-line docs and concatenations (ordered pairs of hostile docs)".into(), tier == Tier::Thorough, dc2));
     // name placements
     let names = cases::hostile_name_alphabet();
     let mut nc = vec![];
     let mut skipped = 0;
-    for (bn, b) in &cases::name_bases() {
+    let nbases = cases::name_bases();
+    for (bn, b) in &nbases {
         for h in &names {
-            skipped += cases::name_cases(bn, b, h, true, &mut nc);
+            // names that need no twin (identifier-shaped): quick runs them on NF1 and NM2 only
+            if tier == Tier::Quick && !cases::needs_twin(h) && !(bn.starts_with("NF1") || bn.starts_with("NM2")) {
+                continue;
+            }
+            skipped += cases::name_cases(bn, b, h, true, &[], &mut nc);
         }
     }
     // identifier-shaped names (target keywords) also next to identifier siblings
-    for (bn, b) in &bases {
+    for (bi, (bn, b)) in bases.iter().enumerate() {
+        if tier == Tier::Quick && !(bi == 0 || bi == 2) {
+            continue;
+        }
         for h in &names {
             if !cases::needs_twin(h) {
-                skipped += cases::name_cases(bn, b, h, false, &mut nc);
+                skipped += cases::name_cases(bn, b, h, false, &[], &mut nc);
             }
         }
     }
-    levels.push((format!("name placement: bases x positions x hostile names ({skipped} ill-formed placements skipped)"), nc));
+    levels.push((format!("name placement: bases x positions x hostile names ({skipped} ill-formed placements skipped)"), false, nc));
     if tier == Tier::Thorough {
-        // concatenations of two special names at every position of the twin bases
-        let special: Vec<String> = names.iter().filter(|n| cases::needs_twin(n) && n.chars().count() <= 3).cloned().collect();
+        // concatenations of two short hostile names at every twin position
+        let special: Vec<String> = names.iter().filter(|n| cases::needs_twin(n) && n.chars().count() == 1).cloned().collect();
         let mut nc2 = vec![];
         let mut sk = 0;
-        for (bn, b) in &cases::name_bases() {
+        for (bn, b) in nbases.iter().filter(|b| ["NF1", "NM2", "NM5"].iter().any(|p| b.0.starts_with(p))) {
             for a in &special {
                 for c in &special {
                     let s = format!("{a}{c}");
-                    if !names.contains(&s) {
-                        sk += cases::name_cases(bn, b, &s, true, &mut nc2);
+                    if !names.contains(&s) && cases::needs_twin(&s) {
+                        sk += cases::name_cases(bn, b, &s, true, &[a.clone(), c.clone()], &mut nc2);
                     }
                 }
             }
         }
-        levels.push((format!("name placement: concatenations of two short hostile names ({sk} ill-formed skipped)"), nc2));
+        levels.push((format!("name placement: concatenations of two one-char hostile names on NF1, NM2, NM5, {} x {} ({sk} ill-formed skipped)", special.len(), special.len()), true, nc2));
     }
     levels
 }
@@ -545,7 +634,7 @@ fn main() {
         let c = case_from(&body["case"]);
         let want_key = body["key"].as_str().unwrap_or("").to_string();
         let fresh = gens::generate_on_fresh_thread(&c.did, &targets_for(&c.view));
-        let (vs, _) = eval_case(&c, Some(&fresh));
+        let (vs, _) = eval_case(&c, Some(&fresh), false);
         let hit = vs.iter().find(|v| mclib::engine::mk_key(&v.key) == want_key);
         match hit {
             Some(v) => {
@@ -559,10 +648,18 @@ fn main() {
         }
     }
     let ctx = Ctx::new("C19", tier, tier.pick(55, 570));
+    // replay files of earlier runs of this property are stale once a new exploration starts
+    if let Ok(rd) = std::fs::read_dir(format!("{}/replays/C19", mclib::engine::VERIF_DIR)) {
+        for e in rd.flatten() {
+            if e.path().extension().is_some_and(|x| x == "json") {
+                let _ = std::fs::remove_file(e.path());
+            }
+        }
+    }
     let mut rep = Report::new();
     let levels = build_cases(tier);
     let mut scope = vec![];
-    for (name, cs) in &levels {
+    for (name, light, cs) in &levels {
         println!("LEVEL {name}: {} programs", cs.len());
         const CH: usize = 8;
         let nchunks = cs.len().div_ceil(CH) as u64;
@@ -574,9 +671,15 @@ fn main() {
             |_, i, rep| {
                 let lo = i as usize * CH;
                 let chunk = &cs[lo..(lo + CH).min(cs.len())];
-                let fresh = second_thread(chunk);
-                for (c, f) in chunk.iter().zip(fresh.iter()) {
-                    run_case(c, f, rep);
+                if *light {
+                    for c in chunk {
+                        run_case(c, None, rep);
+                    }
+                } else {
+                    let fresh = second_thread(chunk);
+                    for (c, f) in chunk.iter().zip(fresh.iter()) {
+                        run_case(c, Some(f), rep);
+                    }
                 }
             },
         );
@@ -587,7 +690,7 @@ fn main() {
             l["programs_total"] = json!(cs.len());
         }
         let with_twin = cs.iter().filter(|c| c.twin.is_some()).count();
-        scope.push(json!({"level": name, "programs": cs.len(), "with_benign_twin": with_twin}));
+        scope.push(json!({"level": name, "programs": cs.len(), "with_benign_twin": with_twin, "determinism_reruns": !*light}));
         rep.merge(r);
     }
     // feed the kept (smallest per key) violations into the report, in key order
@@ -599,6 +702,9 @@ fn main() {
         }
         rep.violation_count = total;
     }
+    rep.count("violating_products_subsumed_by_a_single_hostile_string_at_the_same_position", SUBSUMED.load(Ordering::Relaxed));
+    rep.count("type_references_resolved_against_definitions", oracle::REFS_CHECKED.load(Ordering::Relaxed));
+    rep.count("method_mentions_compared_with_service_methods", oracle::MENTIONS_CHECKED.load(Ordering::Relaxed));
     let dups: Vec<Value> = DUP_DEFS.lock().unwrap().iter().take(40).map(|(k, (n, did))| json!({"target:name": k, "programs": n, "smallest_program": did})).collect();
     let rule = "for every program x generator (js, ts, mo [identifier method names only], rs-call, rs-agent, rs-stub): no unwind; run1 == run2 == run on a fresh thread; \
 output lexes without unterminated string/comment and with balanced ()[]{}; every referenced bare type identifier is defined in the output (per scope for JS) or is one of the generator's fixed words; \
